@@ -1,6 +1,7 @@
 import CssVerif.Model.EncLadder
 import CssVerif.Model.EncEscape
 import CssVerif.Model.EncSheet
+import CssVerif.Model.EncTok
 /-!
 Driver for C08. One request per line:
 
@@ -14,6 +15,10 @@ unescs <text>                                 -> token value (stringsub: STRING,
 ok | oks <unrepresentable code points> <text> -> 0 | 1
 scan <text>                                   -> items
 sheet <op>*                                   -> one result per op, then the final rule list
+tokesc <unrepresentable code points> <text>   -> g=<guard> A=<tokens of the text> B=<tokens of the escaped text>
+                                                 (token = type/value/source span; `Tok.tokenize`, partial-sheet mode)
+tokescf <unrepresentable code points> <text>  -> A=… B=… in full-sheet mode (type/value)
+first <unrepresentable code points> <text>    -> g=<guard> then per production name:first(text):first(escaped):elen
 ```
 `<override>`, `<parent>`, `<enc>`, `<http>`: `N` = None, otherwise a dotted-hex string (`-` = empty string).
 `<shape>`: `none` | `badlen` | `nc:<http>` | `p:<http>:<content>`;  `<content>`: `B:<hex>` | `T:<hex>`;
@@ -131,6 +136,48 @@ def cmdLoad (mode fuel enc href : String) (rest : List String) : String :=
     else "bad-op"
   | _, _, _ => "bad-op"
 
+def showTok (it : CssVerif.Tok.Item) : String := it.typ ++ "/" ++ encCps it.value ++ "/" ++ encCps it.span
+
+def showToks (r : CssVerif.Tok.Res) : String :=
+  let items := r.tokens
+  let body := if items.isEmpty then "-" else ",".intercalate (items.map showTok)
+  match r.stop with
+  | .done _ _ => body
+  | _ => body ++ ",STOP"
+
+def cmdTokEsc (u t : List Nat) : String :=
+  let rep := fun c => !u.contains c
+  "g=" ++ (if CssVerif.EncTok.guard rep t then "1" else "0") ++
+    " A=" ++ showToks (CssVerif.Tok.tokenize t false true) ++
+    " B=" ++ showToks (CssVerif.Tok.tokenize (escape rep t) false true)
+
+def showTokV (it : CssVerif.Tok.Item) : String := it.typ ++ "/" ++ encCps it.value
+
+def showToksV (r : CssVerif.Tok.Res) : String :=
+  let items := r.tokens
+  let body := if items.isEmpty then "-" else ",".intercalate (items.map showTokV)
+  match r.stop with
+  | .done _ _ => body
+  | _ => body ++ ",STOP"
+
+/-- full-sheet mode (`fullsheet=True`): type and value of every token, of the text and of the escaped text -/
+def cmdTokEscF (u t : List Nat) : String :=
+  let rep := fun c => !u.contains c
+  "A=" ++ showToksV (CssVerif.Tok.tokenize t true true) ++
+    " B=" ++ showToksV (CssVerif.Tok.tokenize (escape rep t) true true)
+
+def showFirst : Option Nat → String
+  | none => "N"
+  | some l => toString l
+
+def cmdFirst (u t : List Nat) : String :=
+  let rep := fun c => !u.contains c
+  let e := escape rep t
+  "g=" ++ (if CssVerif.EncTok.guard rep t then "1" else "0") ++ " " ++
+    " ".intercalate (CssVerif.Gen.C05.productions.map fun p =>
+      p.1 ++ ":" ++ showFirst (p.2.first t) ++ ":" ++ showFirst (p.2.first e) ++ ":" ++
+        showFirst ((p.2.first t).map (CssVerif.EncTok.elen rep t)))
+
 def handle (line : String) : String :=
   match words line with
   | "readurl" :: ov :: pa :: sh :: rest => cmdReadUrl ov pa sh rest
@@ -154,6 +201,15 @@ def handle (line : String) : String :=
       | some t => " ".intercalate ((scan t).map showItem)
       | none => "bad-op"
   | "sheet" :: ops => CssVerif.EncSheet.sheetCmd ops
+  | ["tokesc", u, t] => match decCps u, decCps t with
+      | some u, some t => cmdTokEsc u t
+      | _, _ => "bad-op"
+  | ["tokescf", u, t] => match decCps u, decCps t with
+      | some u, some t => cmdTokEscF u t
+      | _, _ => "bad-op"
+  | ["first", u, t] => match decCps u, decCps t with
+      | some u, some t => cmdFirst u t
+      | _, _ => "bad-op"
   | _ => "bad-op"
 
 def main : IO Unit := serve handle
